@@ -125,10 +125,10 @@ fn run_history(case: &[u8], allow_threads: bool, allow_big: bool) -> Result<(boo
         let name: String;
         match op {
             0 | 1 => {
-                let d = DOCS[src.below(DOCS.len())];
+                // default or raw-number mode (start_doc covers DOCS and RAW_DOCS)
+                let (v, m, _) = super::c15::start_doc(src.below(super::c15::N_START_DOCS));
                 name = "parse".into();
-                let v: Value = sonic_rs::from_str(d).unwrap();
-                st.put(v, model_of(d), usize::MAX);
+                st.put(v, m, usize::MAX);
             }
             2 => {
                 // several values through one Deserializer: they share its arena (except the first)
@@ -136,7 +136,7 @@ fn run_history(case: &[u8], allow_threads: bool, allow_big: bool) -> Result<(boo
                 let d2 = DOCS[src.below(DOCS.len())];
                 let text = format!("0 {d1} {d2} [1]");
                 name = "deserializer x3".into();
-                let mut de = Deserializer::from_str(&text);
+                let mut de = if src.chance(80) { Deserializer::from_str(&text).use_rawnumber() } else { Deserializer::from_str(&text) };
                 let _first: Value = de.deserialize().unwrap();
                 let a: Value = de.deserialize().unwrap();
                 let b: Value = de.deserialize().unwrap();
@@ -168,7 +168,7 @@ fn run_history(case: &[u8], allow_threads: bool, allow_big: bool) -> Result<(boo
                 let d2 = DOCS[src.below(DOCS.len())];
                 let text = format!("{d1}\n{d2}\ntrue");
                 name = "stream".into();
-                let mut it = Deserializer::from_str(&text).into_stream::<Value>();
+                let mut it = if src.chance(80) { Deserializer::from_str(&text).use_rawnumber() } else { Deserializer::from_str(&text) }.into_stream::<Value>();
                 let a = it.next().unwrap().unwrap();
                 let b = it.next().unwrap().unwrap();
                 if src.bool() {
@@ -260,7 +260,7 @@ fn run_history(case: &[u8], allow_threads: bool, allow_big: bool) -> Result<(boo
             10 => {
                 let Some(a) = pick(&mut src, &live) else { continue };
                 let path = choose_path(&st.hs[a].as_ref().unwrap().m, &mut src);
-                let (uv, um) = universe(src.below(26));
+                let (uv, um) = universe(src.below(super::c15::N_UNIVERSE));
                 name = format!("mutate holder {a} at {path:?}");
                 let h = st.hs[a].as_mut().unwrap();
                 if let Some(t) = h.v.pointer_mut(&path) {
